@@ -7,6 +7,63 @@ CLAIMED = {
  "C01": ("reference-model monitor (big-integer RFC 8032 predicate + crypto/ed25519) shadowing every verification call over adversarial input families, 4 backends",
          "Exploration: every VerifyWithOptions/VerifyExpandedWithOptions call of a hostile workload (torsion-perturbed, malleated, small-order, non-canonical, undecodable inputs x all 32 flag sets x pure/ctx/ph x 4 backends) is compared with an independent big-integer evaluation of the property's predicate, and with crypto/ed25519 for the StdLib preset. Held on the executions observed; sampled, not exhaustive.",
          "Trusts math/big, crypto/sha512, crypto/ed25519 and the hand-written affine reference; inputs are sampled from structured families, not enumerated.", "5.C01"),
+ "C02": ("reference-model monitor (crypto/ed25519 + big-integer RFC 8032 signer) on every key derivation/signing call, followed by verification under all presets (plain/expanded/batch) and mutation monitors",
+         "Exploration: signing outputs are compared byte-for-byte with two independent oracles over seeds, message lengths at SHA-512 block boundaries, contexts 0..255, all option combinations and entropy streams; each signature is verified under every preset singly, expanded and in a batch, then mutated (all 512 bits for a subset); added-randomness values are recomputed exactly; invalid options must error. Sampled.",
+         "Trusts crypto/ed25519, math/big, SHA-512. Seeds whose nonce/scalar hit special residues cannot be constructed (hash preimages); those residues are driven into the same routines by C03/C05.", "5.C02"),
+ "C03": ("reference-model monitor (affine big-integer group law; discrete-log bookkeeping for long sums) on every curve API result and, through an in-package graft, on each internal algorithm called directly",
+         "Exploration: Add/Sub/Neg/Sum/cofactor/select/Equal, Mul, fixed-base (shared and custom tables), double-base, constant-time and vartime multiscalar (Straus, Pippenger w=6/7/8, expanded splits) at term counts crossing 190/500/800, Ristretto wrappers and the Montgomery ladder, on identity/torsion/mixed-order points in random projective scalings with unreduced and digit-extreme scalars; internal generic and vector algorithms are invoked directly irrespective of dispatch. Sampled.",
+         "Trusts math/big and the reference formulas; the graft only calls unexported functions that exist in the tree.", "5.C03"),
+ "C04": ("reference-model monitor (math/big) on field operations driven at raw-limb level through an in-package graft, on each backend incl. AVX2 lanes",
+         "Exploration: every field operation is executed on operands whose limbs sit anywhere in the documented headroom (all-max, one-max, alternating, at the mask, [p,2p), word-boundary products, PRNG) and on values the API itself produces; results are read back limb-wise and via ToBytes and compared with math/big; assembly and portable multiply/square are both called on amd64; vector lanes are driven up to the envelope measured in situ. Sampled within the documented domain.",
+         "Domain = headroom documented in the code comments (u64 < 2^54; u32 +1.75 bits for products, below 16p for subtrahends) and the measured AVX2 envelope; stressing beyond it would raise false alarms.", "5.C04"),
+ "C05": ("reference-model monitor (math/big) on every scalar operation over a boundary catalogue (all ordered pairs) and PRNG values, both limb backends",
+         "Exploration: Add/Sub/Mul/Neg/Reduce/Invert/BatchInvert/Sum/Product, narrow and wide reduction, and all canonicity predicates (incl. ScMinimalVartime word-compare paths) are compared with math/big on kL+-e, 2^k seams, fills, digit-extreme values, 256-bit and 512-bit extremes. Sampled.",
+         "Trusts math/big. Unpacked-scalar internals are reached through the exported API only.", "5.C05"),
+ "C06": ("differential monitor across the four build/CPU configurations: per-operation SHA-256 chains of canonical outputs of one deterministic workload must be equal",
+         "Exploration: ~170 exported operations of all packages (and the Keccak permutation through a graft) are called on catalogue and PRNG inputs in avx2, asm (cpu.avx2=off), purego and force32bit processes; any difference in an output byte, decision, error class or panic class between two configurations is a violation. The thorough tier adds a reach meter (exported functions never executed).",
+         "A defect shared by all four backends is invisible to this check (it is the business of the oracle-based checks). The workload is hand-enumerated.", "5.C06"),
+ "C07": ("reference-model monitor (big-integer RFC 7748 ladder, x/crypto/curve25519, crypto/ecdh) on every X25519 entry point and conversion; field-contract monitor for the ladder's multiply-by-constant",
+         "Exploration: all low-order and non-canonical u (incl. bit-255 forms), u in [p-40,p+18], clamping-sensitive scalars, PRNG pairs; exact error condition; lengths 0..72; DH symmetry; Ed25519->X25519 conversions for every decodable key class. Sampled.",
+         "Trusts math/big and the two independent Go implementations; the field-contract part needs the field graft.", "5.C07"),
+ "C08": ("binary-instrumentation sanitizer: fork-differential valgrind/lackey traces (every instruction and data address, Go and assembly) must be identical across secrets; plus per-basic-block execution counters (cover instrumentation) under hundreds of secrets on all four backends",
+         "Exploration: ~57 constant-time operations x 7-14 structured secrets traced under lackey in children forked from one address-space image (self-calibrating with a duplicated secret; positive controls must fire); the block-counter monitor repeats every operation with 80-1000 secrets incl. equal halves, non-canonical encodings and L-adjacent values, and covers the 190-term multiscalar shape. Holds for the secrets tried.",
+         "valgrind's synthetic CPU; data-dependent instruction latency is not a trace event; the block-counter monitor sees neither assembly nor memory indices (the lackey monitor does).", "5.C08"),
+ "C09": ("model-based history checking: PRNG programs on a real BatchVerifier / cache.Verifier vs a model made of single-verification verdicts",
+         "Exploration: histories over Add*/ForceNoPublicKeyExpansion/Reset/Verify/VerifyBatchOnly with batch sizes crossing 94 and 190 (to 1000 in thorough), adversarial and malformed entries, per-entry options from all 32 flag sets, several entropy sources; cache programs with capacities 1..4 and key universes larger than capacity, structure inspected after every operation. Sampled.",
+         "Random 128-bit batch coefficients make a false batch accept negligible; no coefficient-aware forgeries are built. Single verification itself is monitored by C01.", "5.C09"),
+ "C10": ("reference-model monitor (big-integer curve) on every decode/unmarshal/encode/predicate/conversion call; predicates driven in many projective scalings via a graft",
+         "Exploration: exhaustive windows of y around 0, p and 2^255 (2x96 strings quick, 2x65536 thorough) with both sign bits, all non-canonical/torsion encodings, byte-position boundaries of the canonicity test, PRNG strings, lengths 0..70 with pre-loaded receivers, predicates on torsion/mixed/prime-order points in 8 scalings, SetMontgomery on structured u. Sampled outside the windows.",
+         "Trusts math/big; projective rescaling needs the curve graft (falls back to API-produced representations).", "5.C10"),
+ "C11": ("reference-model monitor (RFC 9496 pseudocode in big integers) on every ristretto255 decode/encode/equality/one-way-map/group call; coset representatives built through a graft",
+         "Exploration: windows of s around 0, p and 2^255 with bit 255 clear/set, each RFC failure class, lengths 0..70, all four coset representatives x projective scalings for encode/Equal, distinct elements, SetUniformBytes on boundary halves. Sampled.",
+         "Trusts math/big and the RFC constants; coset representatives need the curve graft.", "5.C11"),
+ "C12": ("reference-model monitor (schnorrkel over reference Merlin/STROBE/Keccak and ristretto255) with deterministic entropy: exact signature bytes; mutation, decoder and batch-history monitors",
+         "Exploration: both key expansions, contexts, bytes/hash/XOF transcripts with lengths hitting every rate-boundary residue, exact signature bytes, mutations decided by the reference, the four decoders on catalogues with round trips and neutral receivers, batch histories with malformed entries vs single verification. Sampled.",
+         "Trusts the reference stack (validated against SHAKE128 and by agreement on the unchanged tree).", "5.C12"),
+ "C13": ("history + executable model: PRNG operation programs on live transcripts mirrored by a reference Merlin/STROBE/Keccak; twin-collision monitor; permutation differential with canaries",
+         "Exploration: programs over all transcript operations with lengths around the 166-byte rate, duplex position steered to the boundary before each operation kind, clones, RNG builders with zero-length witnesses; every produced byte compared; mutated twins must differ. Both Keccak implementations. Sampled.",
+         "Trusts the reference permutation (self-tested against x/crypto/sha3 at start-up).", "5.C13"),
+ "C14": ("reference-model monitor (RFC 9380 expanders, hash_to_field, Elligator 2, rational map in big integers) on every expander/suite/map call",
+         "Exploration: hashes below/at/above the digest bound, XOFs with dirty state, DST lengths across 255/256, output lengths across 255*b, 256*b and 65535/65536, all suites on PRNG (DST,message) pairs incl. long DSTs with prime-order test, the map driven directly on exceptional and PRNG field elements. Sampled.",
+         "Trusts Go's hash implementations and math/big.", "5.C14"),
+ "C15": ("reference-model monitor (RFC 9381 / draft-10 prover and verifier in big integers) incl. a malicious prover and key-validation forgeries",
+         "Exploration: proofs byte-equal to the reference, honest verification, output == ProofToHash, added randomness, cross-format rejection, 30+ bit flips per proof, s+kL, special Gamma encodings, torsion-shifted Gamma with c*T = O (must verify with the honest output), small-order keys with proofs only key validation can reject, lengths. Sampled.",
+         "Trusts the reference (anchored to RFC vectors by agreement on the unchanged tree). Removal of the canonical-key check alone is observationally indistinguishable here (needs a discrete log); IsCanonicalVartime itself is monitored by C10.", "5.C15"),
+ "C16": ("invariant hook on every FindShortVector result (big-integer congruence) with termination decided on loop ticks of an instrumented build; small-order equivalence monitor for the triple-base multiplication",
+         "Exploration: ~7k structured k (powers of two and their negatives/inverses, L/m, continued-fraction extremes, rational reconstructions on a size grid, unreduced values) + PRNG; triple-base multiplication (plain/expanded, Edwards/Ristretto, generic/vector internals) on torsion-laden operands in random scalings. Sampled.",
+         "Loop-tick budget = 200x the observed maximum; needs the vinstr instrumenter and the lattice/curve grafts.", "5.C16"),
+ "C17": ("invariant monitor: every digit vector reconstructed and range-checked; the same scalars consumed by table-driven multiplications against the reference",
+         "Exploration: exhaustive structured families (2^k, 2^k+-1, byte fills, every nibble at every position on two backgrounds, all-half digit strings, runs and bit pairs straddling the 64-bit word seams, byte-length prefixes) + PRNG values through Bits, NAF w=2..8, radix-16, radix-2^w w=6..8; consumption through radix-16/NAF/Pippenger(w=6,7,8) lookups. Sampled beyond the families.",
+         "Digit rules are the documented ranges; math/big for reconstruction.", "5.C17"),
+ "C18": ("Go race detector under a multi-goroutine stress workload over shared objects; linearizability checking (porcupine) of recorded Get/Put histories against a sequential LRU model; structural inspection under the cache's own lock",
+         "Exploration: -race builds (default and purego) of a stress workload whose concurrent results must equal sequential ones, race reports counted from the detector's logs; hundreds to thousands of short barrier-synchronised cache histories with injected yields between the Get and Put of an upsert, unique values per Put, checked with porcupine; table digests before/after. Holds for the schedules observed.",
+         "The race detector does not see assembly (purego build covers the Go code paths); histories that drive the real Verifier upsert are checked presence-only.", "5.C18"),
+ "C19": ("recover()-based sanitizer over a table of ~70 byte-taking entry points with hostile lengths/contents, pre-loaded receivers and loop-tick budgets (instrumented build)",
+         "Exploration: every entry x lengths 0..nominal+40, 2*nominal, 128, 255..257, 1000 (4 KiB, 70000, 1 MiB for message-like arguments) x {zeros, ff, valid prefix + junk, PRNG, every single-bit corruption of a valid example} + nil; documented-panic table; wrong length must fail; receivers neutral or unchanged after failure; termination on loop ticks.",
+         "Documented panics are transcribed from the doc comments; private-key arguments of wrong length are caller bugs and not in the table.", "5.C19"),
+ "C20": ("invariant check of live data at a quiescent point, exhaustive over the finite space: every constant/table entry read limb-wise through grafts and compared with big-integer definitions, per backend",
+         "Exhaustive enumeration (evidence exhaustive=true): 32x8 packed fixed-base entries and the live copy, two 64-entry odd-multiple tables, B*2^128, the three start-up generated vector tables on AVX2, base points, EIGHT_TORSION by value and by coordinates (T = XY/Z), scalar Montgomery constants, lattice constants, curve/Ristretto/Elligator/field constants, in the 64-bit, 32-bit and vector encodings.",
+         "Sign conventions of square-root constants are fixed by RFC 9496 / RFC 9380; needs the constant grafts.", "5.C20"),
 }
 
 PENDING_REASON = "check under construction in this build phase (design in DESIGN.md section 5); not yet claimed"
@@ -46,7 +103,9 @@ def main():
              "kind_free_text": "orchestrator: scratch copy of the working tree, graft/instrument, build per configuration, run monitored driver processes, merge observations, known-findings filter, evidence"},
             {"name": "harness", "path": "/verif/harness", "serves_properties": [c["property_id"] for c in checks],
              "kind_free_text": "Go module with reference oracles (ref/), generators (gen/), monitor runtime (mon/) and one driver per property (drv/cNN)"},
-            {"name": "vinstr", "path": "/verif/tools/vinstr", "serves_properties": ["C16", "C19", "C04", "C17"],
+            {"name": "lackeydiff", "path": "/verif/tools/lackeydiff", "serves_properties": ["C08"],
+             "kind_free_text": "streams valgrind/lackey traces of forked children between two marker calls and reports the first diverging record, symbolised"},
+            {"name": "vinstr", "path": "/verif/tools/vinstr", "serves_properties": ["C16", "C19"],
              "kind_free_text": "go/ast source instrumenter applied to the scratch copy: loop ticks (logical step budgets) and Pre/Post boundary wrappers"},
         ],
         "checks": checks,
